@@ -109,8 +109,11 @@ EMPTY_Q = ("bytes::Bytes::is_empty", "std::vec::Vec::<T, A>::is_empty", "core::s
 
 
 def strip(t):
-    while isinstance(t, tuple) and t[0] == "cast":
-        t = t[2]
+    # `x as usize`, `usize::from(x)`, `x.into()` on integers: the same number
+    while isinstance(t, tuple) and (t[0] == "cast" or (is_call(t) and t[1] in ("std::convert::From::from", "std::convert::Into::into") and len(t[2]) == 1 and
+                                                      ((t[3].get("ty") if len(t) > 3 and isinstance(t[3], dict) else "") or "") in
+                                                      ("u8", "u16", "u32", "u64", "usize", "i8", "i16", "i32", "i64", "isize"))):
+        t = t[2] if t[0] == "cast" else t[2][0]
     return t
 
 
